@@ -67,3 +67,24 @@ def check(prog, rep):
     if not m:
         rep.error("positive fixture fixtures/peewee_atomic.py no longer matches the AUTOCOMMIT rule")
     rep.extra["fixture_matches"] = len(m)
+
+
+SQ = "aw_datastore/storages/sqlite.py"
+PW = "aw_datastore/storages/peewee.py"
+VARIANTS = [
+    ("B delete without conditional_commit (original defect)", SQ, "        cursor = self.conn.execute(query, [event_id, bucket_id])\n        self.conditional_commit(1)\n", "        cursor = self.conn.execute(query, [event_id, bucket_id])\n", "COMMIT-B"),
+    ("B create_bucket not committed", SQ, "                json.dumps(data or {}),\n            ],\n        )\n        self.commit()\n", "                json.dumps(data or {}),\n            ],\n        )\n", "COMMIT-A"),
+    ("B replace early return before commit", SQ, "        self.conn.execute(\n            query, [bucket_id, starttime, endtime, datastr, event_id, bucket_id]\n        )\n        self.conditional_commit(1)", "        cur = self.conn.execute(\n            query, [bucket_id, starttime, endtime, datastr, event_id, bucket_id]\n        )\n        if cur.rowcount == 0:\n            return False\n        self.conditional_commit(1)", "COMMIT-B"),
+    ("B threshold 5000", SQ, "if self.num_uncommitted_statements > 50:", "if self.num_uncommitted_statements > 5000:", "COMMIT-C"),
+    ("B counter not reset", SQ, "        self.last_commit = datetime.now()\n        self.num_uncommitted_statements = 0\n\n    def conditional_commit", "        self.last_commit = datetime.now()\n\n    def conditional_commit", "COMMIT-D"),
+    ("B insert_many counts one statement", SQ, "self.conditional_commit(len(event_rows))", "self.conditional_commit(1)", "COMMIT-B"),
+    ("B counter counts calls not statements", SQ, "self.num_uncommitted_statements += num_statements", "self.num_uncommitted_statements += 1", "COMMIT-C"),
+    ("B commit between the two deletes of delete_bucket", SQ, "            [bucket_id],\n        )\n        cursor = self.conn.execute(\"DELETE FROM buckets WHERE id = ?\", [bucket_id])", "            [bucket_id],\n        )\n        self.commit()\n        cursor = self.conn.execute(\"DELETE FROM buckets WHERE id = ?\", [bucket_id])", "COMMIT-A"),
+    ("B threshold tested before the increment", SQ, "            self.num_uncommitted_statements += num_statements\n            if self.num_uncommitted_statements > 50:\n                self.commit()\n", "            if self.num_uncommitted_statements > 50:\n                self.commit()\n            self.num_uncommitted_statements += num_statements\n", "COMMIT-C"),
+    ("B non-lazy mode never commits", SQ, "        else:\n            self.commit()\n\n    def buckets", "        else:\n            pass\n\n    def buckets", "COMMIT-C"),
+    ("B peewee bulk insert inside atomic()", PW, "        for chunk in chunks(events_dictlist, 100):\n            EventModel.insert_many(chunk).execute()", "        with self.db.atomic():\n            for chunk in chunks(events_dictlist, 100):\n                EventModel.insert_many(chunk).execute()", "AUTOCOMMIT"),
+    ("B raw conn.commit in a write method", SQ, "        event.id = c.lastrowid\n        self.conditional_commit(1)", "        event.id = c.lastrowid\n        self.conn.commit()\n        self.conditional_commit(1)", "COMMIT-F"),
+    ("OK commit() instead of conditional_commit in delete", SQ, "        cursor = self.conn.execute(query, [event_id, bucket_id])\n        self.conditional_commit(1)\n", "        cursor = self.conn.execute(query, [event_id, bucket_id])\n        self.commit()\n", "ok"),
+    ("OK threshold 40 with >=", SQ, "if self.num_uncommitted_statements > 50:", "if self.num_uncommitted_statements >= 40:", "ok"),
+    ("OK chunk size 500 (chunking is irrelevant to durability)", PW, "chunks(events_dictlist, 100)", "chunks(events_dictlist, 500)", "ok"),
+]
